@@ -235,7 +235,9 @@ Definition justified_writers : list writer := [
   mkWr "listener.address" Wr true REngine "initListener" [];
   mkWr "listener.addr" Wr true REngine "listener.open" [];
   mkWr "listener.closeOnce" AWr false REngine "listener.close" [];
+  mkWr "listener.closeOnce" AWr true REngine "listener.close" [];
   mkWr "listener.fd" Wr false REngine "listener.close" [];
+  mkWr "listener.fd" Wr true REngine "listener.close" [];
   mkWr "listener.fd" Wr true REngine "listener.open" [];
   mkWr "listener.network" Wr true REngine "initListener" [];
   mkWr "listener.network" Wr true REngine "listener.open" [];
